@@ -291,7 +291,7 @@ PROPS = {
     },
     "C03": {
         "level": "proof",
-        "claim": "Datagram codec and size arithmetic: for every quarter stream id and payload the encoder emits varint(qid)||payload with the exact announced size (all-or-nothing, Kani); the proto and the driver decoders return exactly the bytes after the id varint for inputs of ANY length, attributed to session 4*qid, and reject ids > 2^60-1 / truncated ids with H3_DATAGRAM_ERROR (Verus unit datagram + Kani on every byte string <= 12); Connection::max_datagram_size never underflows and is exact for any limit the peer may advertise.",
+        "claim": "Datagram codec and size arithmetic: for every quarter stream id and payload the encoder emits varint(qid)||payload with the exact announced size (all-or-nothing, Kani); the proto and the driver decoders return exactly the bytes after the id varint for inputs of ANY length, attributed to session 4*qid, and reject ids > 2^60-1 / truncated ids with H3_DATAGRAM_ERROR (Verus unit datagram + Kani on every byte string <= 12); Connection::max_datagram_size never underflows and is exact for any limit the peer may advertise. Driver: Driver::receive_datagram hands out only datagrams queued for the requested session, exactly as queued (other sessions' datagrams are dropped and the loop goes on), over ANY sequence of queued items (Verus unit driver).",
         "note": "Payload length bounded (16 quick / 256 thorough) on Kani; proto and driver Datagram::read for ANY length are Verus unit `datagram`; header part complete. Assumed: quinn refuses exactly frames above its max_datagram_size; loss/reordering are transport behaviour. Not decided: Driver::receive_datagram session filtering (async).",
         "kani": DATAGRAM_KANI + [DRIVER_DGRAM_HDR],
         "verus": [V("datagram"), V("driver")],
@@ -299,7 +299,7 @@ PROPS = {
     },
     "C04": {
         "level": "proof",
-        "claim": "Capsule path and close-code conversion: a DATA payload is a CLOSE_WEBTRANSPORT_SESSION capsule iff type 0x2843 with a complete length and value (any length, Verus unit capsule; every payload <= 16, Kani); the close is accepted IFF 4 <= len <= 1028 and the reason is UTF-8, carries exactly the big-endian 32-bit code (all 2^32) and the reason bytes; every malformed capsule is H3_DATAGRAM_ERROR; a QUIC application close reaches the application with the same 62-bit code and reason, other causes never become an application close; the leaf future's ImmediateFin/UnexpectedFin distinction (clean finish vs abrupt end) is exact under every Pending pattern.",
+        "claim": "Capsule path and close-code conversion: a DATA payload is a CLOSE_WEBTRANSPORT_SESSION capsule iff type 0x2843 with a complete length and value (any length, Verus unit capsule; every payload <= 16, Kani); the close is accepted IFF 4 <= len <= 1028 and the reason is UTF-8, carries exactly the big-endian 32-bit code (all 2^32) and the reason bytes; every malformed capsule is H3_DATAGRAM_ERROR; a QUIC application close reaches the application with the same 62-bit code and reason, other causes never become an application close; the leaf future's ImmediateFin/UnexpectedFin distinction (clean finish vs abrupt end) is exact under every Pending pattern. Driver (Verus unit driver_streams, every sequence of read results on the session stream): ConnectStream::run skips non-DATA frames and unknown capsules, turns a CLOSE_WEBTRANSPORT_SESSION capsule into ApplicationClosed with exactly the peer's code and reason bytes (and resets the stream with H3_NO_ERROR), a clean FIN into ApplicationClosed(0, empty), and an abrupt end, reset or malformed capsule into a protocol error - never an application close.",
         "note": "Not decided: ConnectStream::run (clean FIN => (0, ''), reset => protocol failure), Worker::run, From<quinn::ConnectionError> (async / need a quinn::Connection). UTF-8 validation trusted (core::str::from_utf8) beyond 4-byte reasons.",
         "kani": CAPSULE_KANI + DRIVER_CLOSE + [ASYNC_LEAF_KANI[1]],
         "verus": [V("capsule", pair=("proto", "p_capsule_with_frame")), V("driver_streams")],
@@ -307,10 +307,10 @@ PROPS = {
     },
     "C06": {
         "level": "proof",
-        "claim": "Code/arm mapping only: quinn reset/stop codes are converted to the application's Reset(c)/Stopped(c) unchanged for all 2^62 codes, other quinn error variants never become Reset/Stopped, and the varint conversions at the driver boundary are the identity.",
+        "claim": "Code/arm mapping only: quinn reset/stop codes are converted to the application's Reset(c)/Stopped(c) unchanged for all 2^62 codes, other quinn error variants never become Reset/Stopped, and the varint conversions at the driver boundary are the identity. Stream wrappers (Verus unit driver_io): the stopped-notification reports STOP_SENDING(c) as Stopped(c) with the same code, a finished-and-acknowledged stream as Closed; QuicSendStream::finish succeeds IFF quinn reports the stream finished with everything acknowledged and otherwise fails with the mapped cause (Stopped(c), NotConnected, ...); reset(c) / stop(c) hand exactly c to quinn.",
         "note": "Everything else on this path is quinn (delivery of the signal, finish-acknowledged semantics). Variants carrying a quinn::ConnectionError (ConnectionLost) are not constructed (bytes::Bytes is out of CBMC's reach).",
         "kani": DRIVER_KANI,
-        "verus": [],
+        "verus": [V("driver_io")],
         "not_decided": ["finish/stopped futures over quinn", "signal delivery"],
     },
     "C10": {
@@ -333,7 +333,7 @@ PROPS = {
     },
     "C12": {
         "level": "proof",
-        "claim": "Sans-IO typestate layer: on each of the four stream roles, from an arbitrary first-frame state, the accept/reject verdict and the error code for every frame kind equal the RFC 9114 7.2 / WebTransport-draft rule table - for inputs of ANY length with any number of skipped unknown frames, sync and async (Verus units frame, frame_async) and on bounded symbolic inputs on the real crate (Kani); invalid session ids -> H3_ID_ERROR, oversize -> H3_EXCESSIVE_LOAD, truncation at FIN -> H3_FRAME_ERROR, clean FIN at a frame boundary passed through, unknown uni stream type -> H3_STREAM_CREATION_ERROR; SETTINGS: reserved/duplicate -> H3_SETTINGS_ERROR, truncated -> H3_FRAME_ERROR; the 15 error codes and the setting ids equal their registry values.",
+        "claim": "Sans-IO typestate layer: on each of the four stream roles, from an arbitrary first-frame state, the accept/reject verdict and the error code for every frame kind equal the RFC 9114 7.2 / WebTransport-draft rule table - for inputs of ANY length with any number of skipped unknown frames, sync and async (Verus units frame, frame_async) and on bounded symbolic inputs on the real crate (Kani); invalid session ids -> H3_ID_ERROR, oversize -> H3_EXCESSIVE_LOAD, truncation at FIN -> H3_FRAME_ERROR, clean FIN at a frame boundary passed through, unknown uni stream type -> H3_STREAM_CREATION_ERROR; SETTINGS: reserved/duplicate -> H3_SETTINGS_ERROR, truncated -> H3_FRAME_ERROR; the 15 error codes and the setting ids equal their registry values. Driver (Verus units driver, driver_streams): a second control / QPACK encoder / QPACK decoder stream is H3_STREAM_CREATION_ERROR and GREASE stream types are ignored (handle_uni_h3_stream); DATA or SETTINGS as first frame of a request stream is H3_FRAME_UNEXPECTED (handle_bi_h3_stream); on the peer's control stream the first frame must be SETTINGS (H3_MISSING_SETTINGS), afterwards only reserved types are tolerated (H3_FRAME_UNEXPECTED, incl. a second SETTINGS), and every kind of end of a critical stream (peer control, local control, QPACK streams) is H3_CLOSED_CRITICAL_STREAM - for every sequence of frames / I/O outcomes.",
         "note": "Quick tier: well-formed single frames (bounded). Thorough tier: every byte string <= 14 bytes. Not decided: the driver's reaction (RemoteSettingsStream::run, handle_uni_h3_stream, missing/duplicate SETTINGS, closed critical streams) - async over quinn.",
         "kani": STREAM_KANI_QUICK[:5] + STREAM_KANI_BUFFERED + STREAM_KANI_THOROUGH + MISC_KANI[:1] + SETTING_ID_KANI[1:3] + ASYNC_LEAF_KANI[:3],
         "verus": [V("frame", pair=("proto", "p_frame_read_matches_reference_20")), V("settings", pair=("proto", "c_settingid_parse")), V("frame_async"), V("stream_header", pair=("proto", "p_uniremote_upgrade")), V("driver"), V("driver_streams")],
@@ -341,7 +341,7 @@ PROPS = {
     },
     "C13": {
         "level": "proof",
-        "claim": "Frames, settings and capsules at the sans-IO layer: a frame of unknown type is consumed whole (type, length, payload) before it is reported, on EVERY byte string (Kani, complete) and for any length (Verus), so the skip loops - proved for ANY number of unknown frames, sync and async - never re-read its content, and a clean end of stream after skipped frames stays a clean end; GREASE predicates equal 0x1f*N+0x21 for all 2^62 ids and GREASE frames are returned whole; unknown setting ids are ignored without changing the collected settings (reference interpreter); unknown capsule types yield no capsule.",
+        "claim": "Frames, settings and capsules at the sans-IO layer: a frame of unknown type is consumed whole (type, length, payload) before it is reported, on EVERY byte string (Kani, complete) and for any length (Verus), so the skip loops - proved for ANY number of unknown frames, sync and async - never re-read its content, and a clean end of stream after skipped frames stays a clean end; GREASE predicates equal 0x1f*N+0x21 for all 2^62 ids and GREASE frames are returned whole; unknown setting ids are ignored without changing the collected settings (reference interpreter); unknown capsule types yield no capsule. Driver (Verus unit driver_streams): on the session stream non-DATA frames and DATA frames holding no or an unknown capsule are skipped with no effect, any number of them; GREASE frames on the control stream after SETTINGS are tolerated; GREASE unidirectional stream types are ignored.",
         "note": "Skip loop: Kani shows base case + one step per typestate (thorough tier, bounded); quick tier exercises one leading unknown frame on well-formed input. Unknown frames above the 4096-byte parse limit are refused like known ones (H3_EXCESSIVE_LOAD). Not decided: driver reactions to unknown unidirectional stream types (async).",
         "kani": FRAME_KIND_KANI + [FRAME_READ_20, FRAME_READ_4200] + STREAM_KANI_QUICK[:4] + STREAM_KANI_THOROUGH[:4]
                 + [STREAM_KIND_KANI[0], SETTING_ID_KANI[0], SETTING_ID_KANI[2], CAPSULE_KANI[0], CAPSULE_KANI[1]] + ASYNC_LEAF_KANI[:3],
@@ -376,7 +376,7 @@ PROPS = {
     },
     "C17": {
         "level": "proof",
-        "claim": "Proof, for all 2^62 ids, of the identifier algebra: every function of ids.rs (classification, session-id admission, quarter-stream-id conversions, range, unsafe preconditions, debug_asserts) satisfies its contract against the RFC 9000 2.1 reference, on two back ends independently (Kani in place, Verus on extracted text); quinn stream ids convert unchanged.",
+        "claim": "Proof, for all 2^62 ids, of the identifier algebra: every function of ids.rs (classification, session-id admission, quarter-stream-id conversions, range, unsafe preconditions, debug_asserts) satisfies its contract against the RFC 9000 2.1 reference, on two back ends independently (Kani in place, Verus on extracted text); quinn stream ids convert unchanged. Driver (Verus unit driver, ANY sequence of queued streams / datagrams): Driver::accept_uni / accept_bi return only streams naming the requested session; a stream naming another session is stopped with WEBTRANSPORT_BUFFERED_STREAM_REJECTED (the only code the assumed stop accepts) and the loop goes on - the call fails only with the driver's own result; receive_datagram drops foreign datagrams.",
         "note": "Only the algebra is decided. Not decided: that the driver refuses foreign-session streams with BufferedStreamRejected and drops foreign datagrams (async over quinn).",
         "explanation": "Identifier algebra only: every function of ids.rs under contract on both back ends, for all 2^62 ids.",
         "kani": IDS_KANI + [DRIVER_STREAMID, DATAGRAM_KANI[4], MISC_KANI[0]],
@@ -385,7 +385,7 @@ PROPS = {
     },
     "C18": {
         "level": "proof",
-        "claim": "StatusCode: every numeric constructor yields Ok(c) iff 100 <= v <= 599 with c == v (complete), is_successful iff 200..=299, FromStr accepts exactly decimal strings of values in 100..=599; admission predicates for ALL header maps (Verus unit session): a request is admitted iff :method CONNECT, :scheme https, :protocol webtransport, :authority and :path present, each refusal names the documented cause, the request keeps the whole map; a response is accepted iff :status is present and a valid status, depending on nothing else.",
+        "claim": "StatusCode: every numeric constructor yields Ok(c) iff 100 <= v <= 599 with c == v (complete), is_successful iff 200..=299, FromStr accepts exactly decimal strings of values in 100..=599; admission predicates for ALL header maps (Verus unit session): a request is admitted iff :method CONNECT, :scheme https, :protocol webtransport, :authority and :path present, each refusal names the documented cause, the request keeps the whole map; a response is accepted iff :status is present and a valid status, depending on nothing else. Driver (Verus units driver, endpoint): a request that is not a WebTransport extended CONNECT is refused ON ITS OWN STREAM (H3_REQUEST_REJECTED when the method is not CONNECT, H3_MESSAGE_ERROR otherwise - the only codes the assumed stop accepts for that request) and the connection goes on (Ok), admitted requests are handed to the application queue; on the client a response counts as acceptance only with a valid 2xx status (see C02).",
         "note": "FromStr bounded to strings <= 5 bytes (all u16 decimals; u16::from_str trusted beyond). Known finding: StatusCode::default() == 0. Not under contract: SessionRequest::insert / Headers::insert (HashMap<String,String> + iterator closure: reserved-header immutability is NOT decided), SessionRequest::new (url crate), server refusal codes and connect()'s reaction (async driver).",
         "kani": STATUS_KANI + [K("p_reserved_headers_list", "RESERVED_HEADERS is exactly the five WebTransport pseudo-headers", [P + "session.rs::SessionRequest::RESERVED_HEADERS"])],
         "verus": [V("session"), V("driver"), V("endpoint")],
